@@ -34,3 +34,41 @@ GDI = REG.add(Contract(
     properties=("C10", "C14"), noraise=True))
 GDI.modifies["$alloc"] = None
 GDI.modifies["$cls"] = None
+
+
+def gdi_result(c):
+    d = {}
+    for k in ("Version", "Well", "Curves", "Parameter"):
+        d[k] = VRef(z3.Int(fresh_name("default_" + k)), "SectionItems")
+    d["Other"] = VStr("")
+    d["Data"] = VObj(z3.Const(fresh_name("default_data"), PyObj))
+    return VDict(d)
+
+
+GDI.returns = gdi_result
+from . import las_api as API
+from . import las_write_state as WS
+
+
+def init_post(c):
+    me = c.a["self"].t
+    alloc0 = c.old("$alloc")
+    secs = [z3.Select(c.h(f), me) for f in ("$sec_Version", "$sec_Well", "$sec_Curves", "$sec_Parameter")]
+    p = z3.Int("p_i")
+    out = [("every-section-of-a-new-LASFile-is-a-new-object", z3.And([z3.Not(z3.Select(alloc0, x)) for x in secs])),
+           ("the-four-sections-are-distinct-objects", z3.Distinct(*secs))]
+    for f, x in zip(("Version", "Well", "Curves", "Parameter"), secs):
+        n, A = z3.Select(c.h("$len"), x), z3.Select(c.h("$items"), x)
+        out.append(("items-of-%s-are-new-objects" % f, z3.ForAll([p], z3.Implies(z3.And(0 <= p, p < n), z3.Not(z3.Select(alloc0, z3.Select(A, p)))))))
+    return out
+
+
+LAS_INIT = REG.add(Contract(
+    "las.LASFile.__init__", case="no-file", params={"self": API.LAS, "file_ref": NONE, "read_kwargs": "dict"},
+    ensures=init_post,
+    modifies={f: (lambda c, r: z3.Or(r == c.a["self"].t, z3.Not(z3.Select(c.old("$alloc"), r)))) for f in
+              ("$sec_Version", "$sec_Well", "$sec_Curves", "$sec_Parameter", "index_unit", "index_initial", "_text", "$len", "$items",
+               "mnemonic_transforms") + tuple(LI.HI_FIELDS)},
+    properties=("C10", "C14"), noraise=True))
+LAS_INIT.modifies["$alloc"] = None
+LAS_INIT.modifies["$cls"] = None
